@@ -197,6 +197,13 @@ def replaceQuestionMarks (text : Bytes) (repl : Bytes) : Bytes :=
 def modifyLine (lines : List Line) (i : Nat) (f : Bytes → Bytes) : List Line :=
   lines.zipIdx.map (fun (l, j) => if j == i then { l with text := f l.text } else l)
 
+/-- `hasDanglingSeparator`: the entry has no summary text yet but its line already ends with the
+blank that separates value and summary (`8:00 - ? `) -/
+def hasDanglingSeparator (r : Reconciler) (entryIdx lineIdx : Nat) : Bool :=
+  match r.record.entries[entryIdx]?, r.lines[lineIdx]? with
+  | some en, some l => en.summary == [[]] && (match l.text.getLast? with | some b => isBlankByte b | none => false)
+  | _, _ => false
+
 /-- `CloseOpenRange(endTime, format, additionalSummary)` -/
 def Reconciler.closeOpenRange (r : Reconciler) (e : Time) (fmt : Reformat Bool) (add : List Bytes) : Option Reconciler :=
   match findOpenRangeIndex r.record with
@@ -218,7 +225,8 @@ def Reconciler.closeOpenRange (r : Reconciler) (e : Time) (fmt : Reformat Bool) 
       match add with
       | [] => some r
       | a0 :: rest =>
-        let lines := modifyLine r.lines lastSummaryLine (fun t => t ++ (if a0.isEmpty then [] else [SP]) ++ a0)
+        let sep : Bytes := if a0.isEmpty || hasDanglingSeparator r oi lastSummaryLine then [] else [SP]
+        let lines := modifyLine r.lines lastSummaryLine (fun t => t ++ (sep ++ a0))
         let r := { r with lines := lines }
         if rest.isEmpty then some r else some (r.insert (lastSummaryLine + 1) (rest.map (fun s => (s, 2))))
 
